@@ -189,6 +189,28 @@ pub fn run(cfg: &Cfg) -> Report {
         let mut rng = Rng::stream(seed, 0x15_c000 + k as u64);
         judge_3d(ctx, cfg, m, &mut rng, true, cfg.tier.pick(4, 8));
         ctx.count("corpus_symbols");
+        // small corpus symbols: EVERY numbering of the symbol and of its dual must give the same answer
+        if m.n <= cfg.tier.pick(4, 5) {
+            let f0 = judge_3d_one(ctx, m, "identity", true);
+            if f0 != Found::Failed {
+                'perms: for p in gen::all_perms1(m.n) {
+                    for (name, v) in [("renumbering", m.renumbered(&p)), ("renumbered dual", m.dual().renumbered(&p))] {
+                        let f = judge_3d_one(ctx, &v, name, true);
+                        ctx.count("corpus_all_numberings_judged");
+                        if f != Found::Failed && f != f0 {
+                            ctx.violation(
+                                "result-depends-on-numbering-or-dualisation",
+                                "delaney3d::pseudo_toroidal_cover",
+                                json!({"symbol": m.to_text(), "variant": format!("{} {:?}", name, &p[1..]), "variant_symbol": v.to_text()}),
+                                json!({"original": format!("{:?}", f0), "variant": format!("{:?}", f)}),
+                                "whether a cover is found, and its sheet number, do not depend on the numbering of the input",
+                            );
+                            break 'perms;
+                        }
+                    }
+                }
+            }
+        }
         // finite covers of a euclidean symbol are euclidean: the closure of the corpus under covers with
         // few sheets must be found as well (covers built by the library, validated by the model)
         // sheet bound: chambers of the cover <= 18 (thorough 32), 2..=6 (thorough 8) sheets
